@@ -205,7 +205,8 @@ Section Oracles.
                 let '(ik, wrapped) := kw in
                 if negb (lenN wrapped mod 16 =? 0) then Err E_INVALID_PASSWORD      (* UnpadError *)
                 else do key <- aes_dec ik zero_iv wrapped;
-                     Ok (decoder_new key 32 m (d_em d || (d_v d <? 4)%Z))
+                     if negb (lenN key =? 32) then Err E_OTHER            (* Algorithm 2.A: the 32-byte file key *)
+                     else Ok (decoder_new key 32 m (d_em d || (d_v d <? 4)%Z))
             end
         end
     end.
